@@ -122,6 +122,11 @@ func TestC37(t *testing.T) {
 		{"x", func() *dialer.DialerOpts {
 			return &dialer.DialerOpts{Address: "x", Backoff: &backoff.Backoff{BackoffKind: backoff.BackoffKind_BackoffKind_CONSTANT}}
 		}},
+		// well-formed "{transport-type}|{address}" strings: the transport restriction is part of the request
+		{"udp|h:1", func() *dialer.DialerOpts { return &dialer.DialerOpts{Address: "udp|h:1"} }},
+		{"ws|h:1", func() *dialer.DialerOpts { return &dialer.DialerOpts{Address: "ws|h:1"} }},
+		{"udp|h:2", func() *dialer.DialerOpts { return &dialer.DialerOpts{Address: "udp|h:2"} }},
+		{"udp| h:1", func() *dialer.DialerOpts { return &dialer.DialerOpts{Address: "udp| h:1"} }},
 	}
 	for oi, o := range dopts {
 		for _, s := range peers {
